@@ -112,6 +112,9 @@ GEOMS = [
     # a line whose first and last vertices have the SAME time (a contour returning to its start time): already in normal form
     lambda: data.LineString(coordinates=[[0.5, 100.0], [0.9, 200.0], [0.5, 300.0]]),
     lambda: data.BoundingBox(coordinates=[1.0, 0.0, 1.0, 0.0]),
+    # coordinates that need more than six decimals (any rounding on the way to the document shows)
+    lambda: data.MultiLineString(coordinates=[[[1.0000001, 5.00000012], [1.0000004, 6.5]], [[2.25, 1234.5678901], [2.2500000001, 7.0]]]),
+    lambda: data.Point(coordinates=[0.123456789012, 4999999.999999]),
 ]
 
 
@@ -670,13 +673,18 @@ def random_world(rng, ctype):
             O.append({"id": mid, "kind": "match", "source": src, "target": tgt})
         O.append({"id": f"ce{n}", "kind": "clip_eval", "annotations": f"ca{n}", "predictions": f"cp{n}", "matches": mm})
         ces.append(f"ce{n}")
+        if rng.random() < 0.25:  # a second, distinct clip annotation and clip prediction of the SAME clip (empty ones)
+            O.append({"id": f"ca{n}x", "kind": "clip_ann", "clip": c, "tags": pick(tags, 0, 2), "sound_events": [],
+                      "sequences": pick(sqas, 0, 1), "notes": notes()})
+            O.append({"id": f"cp{n}x", "kind": "clip_pred", "clip": c, "sound_events": [], "sequences": [], "tags": pick(tags, 0, 2)})
+            cas.append(f"ca{n}x"); cps.append(f"cp{n}x")
         if rng.random() < 0.2:   # a second evaluation of the same clip sharing annotations, predictions and matches
             O.append({"id": f"ce{n}b", "kind": "clip_eval", "annotations": f"ca{n}", "predictions": f"cp{n}", "matches": list(mm)})
             ces.append(f"ce{n}b")
     ks = []
     for n, c in enumerate(clips):
         O.append({"id": f"k{n}", "kind": "task", "clip": c,
-                  "badges": [{"owner": one(users)} for _ in range(rng.choice([0, 1, 2]))]})
+                  "badges": ([{"owner": []}] if rng.random() < 0.4 else []) + [{"owner": one(users)} for _ in range(rng.choice([0, 1, 2]))]})
         ks.append(f"k{n}")
     if ctype in ("recording_set", "dataset"):
         roots = {"recordings": pick(recs, 1, 3)}
